@@ -8,7 +8,7 @@ BIG = [2**31 - 1, 2**31, 2**32, 2**32 + 1, 2**53, 2**53 + 1, 2**63, 2**64 + 1, 1
 
 
 class Gen:
-    def __init__(self, rng, logic, nvars=None, size=None, big=False, divmod=True, numprefix="v"):
+    def __init__(self, rng, logic, nvars=None, size=None, big=False, divmod=True, numprefix="v", force_bargs=False):
         self.r = rng
         self.logic = logic
         self.decls = []
@@ -18,6 +18,7 @@ class Gen:
         self.num = None
         self.usort = None
         self.numvars, self.uvars, self.ufuns, self.upreds, self.nfuns = [], [], [], [], []
+        self.bargs = False
         L = logic
         if "LRA" in L or "RDL" in L:
             self.num = "Real"
@@ -33,6 +34,8 @@ class Gen:
             self.upreds = [("q", 1)] if rng.random() < 0.7 else []
             if self.num:
                 self.nfuns = [("h", 1)]     # h : num -> num
+            # Boolean-argument uninterpreted symbols: bq : Bool -> Bool, bf : Bool -> U (Boolean terms inside UF)
+            self.bargs = rng.random() < 0.3 or force_bargs
         for b in self.boolvars:
             self.decls.append("(declare-fun %s () Bool)" % b)
         if self.usort:
@@ -43,6 +46,12 @@ class Gen:
                 self.decls.append("(declare-fun %s (%s) U)" % (f, " ".join(["U"] * n)))
             for f, n in self.upreds:
                 self.decls.append("(declare-fun %s (%s) Bool)" % (f, " ".join(["U"] * n)))
+            if self.bargs:
+                self.decls.append("(declare-fun bq (Bool) Bool)")
+                self.decls.append("(declare-fun bf (Bool) U)")
+                # Booleans that occur ONLY as arguments of bq/bf (in no clause of their own)
+                for b in ("pb0", "pb1", "pb2"):
+                    self.decls.append("(declare-fun %s () Bool)" % b)
         for v in self.numvars:
             self.decls.append("(declare-fun %s () %s)" % (v, self.num))
         for f, n in self.nfuns:
@@ -77,6 +86,8 @@ class Gen:
         if depth <= 0 or r.random() < 0.45:
             return r.choice(self.uvars)
         k = r.random()
+        if self.bargs and k < 0.2:
+            return "(bf %s)" % self.formula(depth - 1)
         if k < 0.75 or not self.boolvars:
             f, n = r.choice(self.ufuns)
             return "(%s %s)" % (f, " ".join(self.uterm(depth - 1) for _ in range(n)))
@@ -121,6 +132,8 @@ class Gen:
         if k == "b":
             return r.choice(self.boolvars)
         if k == "u":
+            if self.bargs and r.random() < 0.3:
+                return "(bq %s)" % self.formula(depth - 1)
             if self.upreds and r.random() < 0.3:
                 return "(q %s)" % self.uterm(depth)
             if r.random() < 0.15 and len(self.uvars) >= 3:
@@ -176,10 +189,10 @@ class Gen:
 
 
 def gen_script(rng, logic=None, incremental=False, options=(), produce_models=True, big=False, nassert=None,
-               named=False, queries=("model",), logics=None, depth=None, divmod=True, numprefix="v"):
+               named=False, queries=("model",), logics=None, depth=None, divmod=True, numprefix="v", force_bargs=False, p_special=0.3):
     """Returns (text, meta). A single-check or incremental script."""
     logic = logic or rng.choice(logics or LOGICS_MODEL)
-    g = Gen(rng, logic, big=big, divmod=divmod, numprefix=numprefix)
+    g = Gen(rng, logic, big=big, divmod=divmod, numprefix=numprefix, force_bargs=force_bargs)
     lines = []
     for o in options:
         lines.append("(set-option %s)" % o)
@@ -195,6 +208,41 @@ def gen_script(rng, logic=None, incremental=False, options=(), produce_models=Tr
         """top-level shapes the preprocessing has dedicated code for: defining equalities (substitution), unit literals,
         Boolean definitions, equality diamonds (learnt transitivity), nested ite, wide distinct"""
         k = rng.random()
+        if g.bargs and rng.random() < 0.4:
+            # the Boolean domain has two elements: pigeonhole through uninterpreted symbols over Booleans seen nowhere else
+            a, b, c = rng.sample(["pb0", "pb1", "pb2"], 3)
+            j = rng.random()
+            if j < 0.25:
+                return "(and (bq %s) (not (bq %s)) (not (bq (not %s))))" % (a, b, b)
+            if j < 0.45:
+                return "(distinct (bf %s) (bf %s) (bf %s))" % (a, b, c)
+            if j < 0.55:
+                return "(and (not (= (bf %s) (bf %s))) (not (= (bf %s) (bf %s))) (= %s (bq %s)))" % (a, b, a, c, rng.choice(g.boolvars), b)
+            if j < 0.7:
+                # a Boolean combination that occurs ONLY below bf (never as a formula of its own), its components forced elsewhere
+                q, r2 = rng.sample(g.boolvars, 2)
+                comp = rng.choice(["(and %s %s)" % (q, r2), "(=> (not %s) (bq %s))" % (q, r2), "(or (not %s) (not %s))" % (q, r2), "(xor %s %s)" % (q, r2)])
+                s3 = rng.choice(["pb0", "pb1", "pb2"])
+                forced = " ".join("(or %s %s) (or %s (not %s))" % (x, s3, x, s3) for x in (q, r2))
+                val = {"(an": "true", "(=>": "true", "(or": "false", "(xo": "false"}[comp[:3]]
+                return "(and %s (not (= (bf %s) (bf %s))))" % (forced, comp, val)
+            if j < 0.92 and len(g.uvars) >= 3:
+                # a compound Boolean term (distinct / equality) as the argument: its truth value must reach the congruence closure
+                d = "(distinct %s)" % " ".join(rng.sample(g.uvars, 3)) if rng.random() < 0.8 else "(= %s %s)" % tuple(rng.sample(g.uvars, 2))
+                pv = rng.choice(g.boolvars)
+                return "(and (or %s %s) (or (not %s) %s) (not (= (bf %s) (bf true))))" % (pv, d, pv, d, d)
+            return "(= (bq %s) (not (bq (not (not %s)))))" % (a, a)
+        if g.nfuns and rng.random() < 0.3:
+            # numeric UF applications that occur only under =/distinct (never purified into arithmetic): the model builder
+            # must give them values distinct from the arithmetic solver's values of the variables they are kept apart from
+            x = rng.choice(g.numvars)
+            c = rng.randint(0, 3)
+            j = rng.random()
+            if j < 0.4:
+                return "(and (>= %s %d) (not (= (h %d) %s)))" % (x, c + rng.randint(0, 2), c, x)
+            if j < 0.7:
+                return "(distinct (h %d) %s (h %s))" % (c, x, rng.choice(g.numvars))
+            return "(and (not (= (h %s) %s)) (<= %d %s))" % (rng.choice(g.numvars), x, c, x)
         if k < 0.3 and g.num and not g.dl:
             return "(= %s %s)" % (rng.choice(g.numvars), g.nterm(2))
         if k < 0.4 and g.usort:
@@ -218,7 +266,7 @@ def gen_script(rng, logic=None, incremental=False, options=(), produce_models=Tr
         return g.formula(2)
 
     def one_assert():
-        f = special() if rng.random() < 0.3 else g.formula(depth)
+        f = special() if rng.random() < p_special else g.formula(depth)
         if named and rng.random() < 0.7:
             nm[0] += 1
             return "(assert (! %s :named n%d))" % (f, nm[0])
